@@ -89,8 +89,11 @@ def _tree(draw):
             meta[kids[0] + ".abstract"] = "about it\nsecond line\n"
         elif what == "cap" and kids:
             meta[pre + ".cap/" + os.path.basename(kids[0])] = "Name=Capped\nNumb=2\n"
-        elif what == "dirabstract" and d:
+        elif what == "dirabstract":
+            # (d == '' is the root of the archive: its sidecars describe the archive's own menu)
             meta[pre + ".abstract"] = "about this directory\n"
+            if draw(st.booleans()):
+                meta[pre + ".keywords"] = "key, words\n"
         if draw(st.integers(0, 5)) == 0 and not any(k.startswith(pre + ".cap/") for k in meta):
             # '.cap' as a plain file (not the directory of per-file overrides)
             meta[pre + ".cap"] = "not a directory\n"
